@@ -16,6 +16,9 @@
 //         swaprec:<size>:<a>:<b> | replay:<size>:<from>:<to>   records of <size> bytes swapped / replayed
 //         macshift:<size>:<row>:<word>:<delta>    MAC-consistent change of a shuffle row (delta in the word, key*delta in the tag)
 //       response: `abort-or-same abort:<kind>` | `abort-or-same same` | `changed <histogram>` | `untouched`
+//   c02.recorded <shards> <pad> <records>
+//       honest run in a world of its own; response `t:<gates with helper-to-helper traffic> r:<gates whose multiplication
+//       intermediates were pushed into a DZKP batch>` (full gate names, run prefix dropped, `,`-separated, sorted)
 //   c02.extraclasses <shards> <pad> <records>
 //       honest run; response: the gate classes this configuration has on top of the basic one-shard configuration,
 //       `<class>:<sending helpers>` `,`-separated (the last layers of the query: suite c02_lastlayer)
@@ -98,6 +101,27 @@ pub struct Recorder {
     pub hits: Mutex<usize>,
     /// bytes seen on the key-opening gates of the shuffles (`…/verify_shuffle/reveal_m_a_c_key`)
     pub key_msgs: Mutex<std::collections::BTreeMap<(String, u8, u8, Option<u32>), Vec<u8>>>,
+    /// run gate of the world (`c02w<k>`) when the recorded DZKP gates of the run are wanted
+    pub world_tag: Option<String>,
+}
+
+/// Gates whose multiplication intermediates were pushed into a DZKP batch (`Batch::push`, reported through the guarded
+/// hook in dzkp_validator.rs), per world started by `c02.recorded` (key = the world's run gate `c02w<k>`).
+static PUSHED: Mutex<std::collections::BTreeMap<String, std::collections::BTreeSet<String>>> = Mutex::new(std::collections::BTreeMap::new());
+static WORLDS: std::sync::atomic::AtomicUsize = std::sync::atomic::AtomicUsize::new(0);
+
+pub fn note_push(gate: &str) {
+    let mut it = gate.split('/').filter(|s| !s.is_empty());
+    if let (Some(_), Some(w)) = (it.next(), it.next()) {
+        if w.starts_with("c02w") {
+            PUSHED.lock().unwrap_or_else(|e| e.into_inner()).entry(w.to_string()).or_default().insert(gate.to_string());
+        }
+    }
+}
+
+/// `protocol/c02w3/a/b12` -> `a/b12`
+fn strip_run(g: &str) -> String {
+    g.split('/').filter(|s| !s.is_empty()).skip(2).collect::<Vec<_>>().join("/")
 }
 
 fn hid(h: HelperIdentity) -> u8 {
@@ -326,6 +350,11 @@ async fn run_query<const SHARDS: usize>(
 ) -> Outcome {
     let mut config = TestWorldConfig::default().with_timeout_secs(secs);
     config.seed = seed;
+    // a run whose recorded DZKP gates are wanted (`c02.recorded`) gets its own run gate `protocol/c02w<k>` instead
+    // of `protocol/iter000`, so that the registry can tell its pushes from those of the worlds of other tests
+    if let Some(tag) = recorder.world_tag.as_ref() {
+        config.initial_gate = Some(ipa_step::StepNarrow::narrow(&crate::protocol::Gate::default(), tag.as_str()));
+    }
     config.stream_interceptor = recorder;
     let world = TestWorld::<WithShards<SHARDS>>::with_shards(config);
     let mut rng = Rng(seed ^ 0x5555);
@@ -469,6 +498,23 @@ pub fn exec(req: &str) -> String {
             match o {
                 Outcome::Hist(_) if m.is_empty() => "-".into(),
                 Outcome::Hist(_) => m.iter().map(|(g, n)| format!("{g}:{n}")).collect::<Vec<_>>().join(","),
+                Outcome::Abort(k) => format!("abort:{k}"),
+                Outcome::Inconsistent => "abort:inconsistent".into(),
+            }
+        }
+        "c02.recorded" => {
+            // honest run in a world of its own; response: every gate with helper-to-helper traffic (`t:`) and every gate
+            // recorded in a DZKP batch (`r:`), run prefix dropped, sorted
+            let tag = format!("c02w{}", WORLDS.fetch_add(1, std::sync::atomic::Ordering::SeqCst));
+            let rec = Arc::new(Recorder { world_tag: Some(tag.clone()), ..Default::default() });
+            let o = run_blocking(t[1].parse().unwrap(), rec.clone(), pad_of(t[2]), c01::parse_records(t[3]), seed_of(t[1], t[2], t[3]), 60, None);
+            let traffic: std::collections::BTreeSet<String> =
+                rec.seen.lock().unwrap().iter().filter(|(_, n)| **n > 0).map(|(k, _)| strip_run(&k.0)).collect();
+            let pushed: std::collections::BTreeSet<String> =
+                PUSHED.lock().unwrap().remove(&tag).unwrap_or_default().iter().map(|g| strip_run(g)).collect();
+            let join = |s: &std::collections::BTreeSet<String>| if s.is_empty() { "-".to_string() } else { s.iter().cloned().collect::<Vec<_>>().join(",") };
+            match o {
+                Outcome::Hist(_) => format!("t:{} r:{}", join(&traffic), join(&pushed)),
                 Outcome::Abort(k) => format!("abort:{k}"),
                 Outcome::Inconsistent => "abort:inconsistent".into(),
             }
@@ -877,6 +923,10 @@ fn verif_c02_channels() {
                 format!("c02.channels 1 1 {RECS}"),
                 format!("c02.channels 2 0 {big}"),
                 format!("c02.shardtraffic 2 0 {big}"),
+                // every gate with multiplication traffic inside a DZKP-validated step is recorded in the validator's batch
+                format!("c02.recorded 1 0 {RECS_DEEP}"),
+                format!("c02.recorded 1 1 {RECS}"),
+                format!("c02.recorded 2 0 {RECS_DEEP}"),
             ]
         },
         exec,
